@@ -52,6 +52,7 @@ var c01Kinds = []c01Kind{
 	{T: decl.TSink, Vals: []string{"val", "x"}},                        // an Unmarshaler with a value receiver
 	{T: decl.TOnOffs, Vals: []string{"on", "off"}},                     // a slice of a bool-kinded Unmarshaler: every element takes an argument
 	{T: decl.TInt, Base: "0", Vals: []string{"0644", "0x1F", "12"}},    // base inferred from the prefix
+	{T: decl.TMapIS, Base: "16", Vals: []string{"10:a", "1f:b", "10:c"}}, // the base tag governs integer map keys too (C01-33)
 	{T: decl.TFuncS, Vals: []string{"val"}, Default: []string{"dflt"}}, // a callback with a default: called with it only when the option does not occur
 	// fields that hold something before the parse: an occurrence replaces the previous contents, no occurrence leaves them
 	{T: decl.TMapSI, Vals: []string{"k:1", "j:-3"}, Initial: map[string]int{"stale": 99, "k": 7}},
